@@ -134,9 +134,14 @@ def run(ctx):
             body = GS.by_generic['opaque_ke::' + b['path']][0]
             I, outs = interp.summarize(GS, body, [Sym('self'), Sym('serializer')], adts=ctx.adts)
             want = 'KeGroup::serialize_sk' if 'Private' in tname else 'KeGroup::serialize_pk'
-            good = bool(outs) and all(any(e[0] == 'call' and e[1] == want and e[2][0] == ('fld', Sym('self'), '0') for e in st.events) for st, _ in outs)
+            # directly, or through the key's own serialize method (whose body is the group encoder of the payload: C19 R19.2)
+            via = 'SecretKey::serialize' if 'Private' in tname else 'PublicKey::serialize'
+            good = bool(outs) and all(any(e[0] == 'call' and ((e[1] == want and e[2][0] == ('fld', Sym('self'), '0')) or
+                                                               (e[1].endswith(via) and e[2] and e[2][0] in (Sym('self'), ('fld', Sym('self'), '0'))))
+                                          for e in st.events) for st, _ in outs)
             n_types += int(good)
-            rep.ob('R13.2', 'hand-written Serialize for %s encodes %s(self.0)' % (tname, want), good, '', w, None)
+            rep.ob('R13.2', 'hand-written Serialize for %s encodes %s(self.0)' % (tname, want), good,
+                   'calls seen: %s' % sorted(set(e[1] for st, _ in outs for e in st.events if e[0] == 'call'))[:8], w, None)
             continue
         if adt is None:
             rep.ob('R13.2', 'serde Serialize impl for a known type', False, tname, w, None)
